@@ -223,7 +223,7 @@ class NumpyShim:
         return _np.isfinite(x)
 
     def recarray(self, shape, dtype=None):
-        n = _shape1(shape)
+        n = _shape1(shape, force=getattr(self, "force_symbolic", False))
         if n is None:
             return _np.recarray(shape, dtype=dtype)
         return SRec(n, dtype)
@@ -262,6 +262,21 @@ class SRec:
             width = int(dt[1:])
             if not isinstance(value, list):
                 raise Unsupported("string column assigned from %r" % (type(value),))
+            from .proxies import FMT_TOKENS
+            import re as _re
+            for sv in value:
+                ln = z3.IntVal(0)
+                for part in _re.split("(\x00\\d+\x00)", sv):
+                    if part in FMT_TOKENS:
+                        v = FMT_TOKENS[part][0]
+                        vz = v.z if isinstance(v, SInt) else v.as_int().z
+                        digits = z3.IntVal(20)
+                        for k in range(19, 0, -1):
+                            digits = z3.If(vz < 10 ** k, z3.IntVal(k), digits)
+                        ln = ln + z3.If(vz < 0, digits + 1, digits)
+                    else:
+                        ln = ln + len(part)
+                eng().prove("safety:string-width", ln <= width, "formatted text must fit the fixed-width U%d column (numpy truncates silently)" % width)
             self._fields[name] = ("U", width, value)
             return
         k = A.kind_from_dtype(dt)
